@@ -74,8 +74,8 @@ class HTM(htmc.HTMC):
             The htm index
         """
 
-        ra = np.atleast_1d(ra).astype('f8')
-        dec = np.atleast_1d(dec).astype('f8')
+        ra = np.atleast_1d(ra).astype('f8').ravel()
+        dec = np.atleast_1d(dec).astype('f8').ravel()
 
         if ra.size != dec.size:
             raise ValueError("ra and dec must be the same size")
@@ -216,11 +216,11 @@ class HTM(htmc.HTMC):
 
         """
 
-        ra1 = np.atleast_1d(ra1).astype('f8')
-        dec1 = np.atleast_1d(dec1).astype('f8')
-        ra2 = np.atleast_1d(ra2).astype('f8')
-        dec2 = np.atleast_1d(dec2).astype('f8')
-        radius = np.atleast_1d(radius).astype('f8')
+        ra1 = np.atleast_1d(ra1).astype('f8').ravel()
+        dec1 = np.atleast_1d(dec1).astype('f8').ravel()
+        ra2 = np.atleast_1d(ra2).astype('f8').ravel()
+        dec2 = np.atleast_1d(dec2).astype('f8').ravel()
+        radius = np.atleast_1d(radius).astype('f8').ravel()
 
         if ra1.size != dec1.size or ra2.size != ra2.size:
             stup = (ra1.size, dec1.size, ra2.size, dec2.size)
@@ -406,16 +406,16 @@ class HTM(htmc.HTMC):
         Added to HTM class in July 2010.
 
         """
-        ra1 = np.atleast_1d(ra1).astype('f8')
-        dec1 = np.atleast_1d(dec1).astype('f8')
-        z1 = np.atleast_1d(z1).astype('f8')
+        ra1 = np.atleast_1d(ra1).astype('f8').ravel()
+        dec1 = np.atleast_1d(dec1).astype('f8').ravel()
+        z1 = np.atleast_1d(z1).astype('f8').ravel()
 
-        ra2 = np.atleast_1d(ra2).astype('f8')
-        dec2 = np.atleast_1d(dec2).astype('f8')
-        z2 = np.atleast_1d(z2).astype('f8')
+        ra2 = np.atleast_1d(ra2).astype('f8').ravel()
+        dec2 = np.atleast_1d(dec2).astype('f8').ravel()
+        z2 = np.atleast_1d(z2).astype('f8').ravel()
 
-        radius = np.atleast_1d(radius).astype('f8')
-        dz = np.atleast_1d(dz).astype('f8')
+        radius = np.atleast_1d(radius).astype('f8').ravel()
+        dz = np.atleast_1d(dz).astype('f8').ravel()
 
         npts = ra1.size
         npts2 = ra2.size
@@ -685,10 +685,10 @@ class HTM(htmc.HTMC):
         else:
             verb = 0
 
-        ra1 = np.atleast_1d(ra1).astype('f8')
-        dec1 = np.atleast_1d(dec1).astype('f8')
-        ra2 = np.atleast_1d(ra2).astype('f8')
-        dec2 = np.atleast_1d(dec2).astype('f8')
+        ra1 = np.atleast_1d(ra1).astype('f8').ravel()
+        dec1 = np.atleast_1d(dec1).astype('f8').ravel()
+        ra2 = np.atleast_1d(ra2).astype('f8').ravel()
+        dec2 = np.atleast_1d(dec2).astype('f8').ravel()
 
         if ra1.size != dec1.size or ra2.size != ra2.size:
             stup = (ra1.size, dec1.size, ra2.size, dec2.size)
@@ -699,7 +699,7 @@ class HTM(htmc.HTMC):
             )
 
         if scale is not None:
-            scale = np.atleast_1d(scale).astype('f8')
+            scale = np.atleast_1d(scale).astype('f8').ravel()
             if scale.size != 1 and scale.size != ra1.size:
                 raise ValueError(
                     "scale size (%d) != 1 and"
@@ -711,7 +711,7 @@ class HTM(htmc.HTMC):
             minid = htmid2.min()
             maxid = htmid2.max()
         else:
-            htmid2 = np.atleast_1d(htmid2).astype('i8')
+            htmid2 = np.atleast_1d(htmid2).astype('i8').ravel()
             if htmid2.size != ra2.size:
                 raise ValueError(
                     "htmid2 size %d != " "ra size %d" % (htmid2.size, ra2.size)
@@ -724,7 +724,7 @@ class HTM(htmc.HTMC):
         if htmrev2 is None:
             hist2, htmrev2 = stat.histogram(htmid2 - minid, rev=True)
         else:
-            htmrev2 = np.atleast_1d(htmrev2).astype('i8')
+            htmrev2 = np.atleast_1d(htmrev2).astype('i8').ravel()
 
         minmax_ids = np.array([minid, maxid], dtype="i8")
 
@@ -762,8 +762,8 @@ class Matcher(htmc.Matcher):
 
     def __init__(self, depth, ra, dec):
 
-        ra = np.atleast_1d(ra).astype('f8')
-        dec = np.atleast_1d(dec).astype('f8')
+        ra = np.atleast_1d(ra).astype('f8').ravel()
+        dec = np.atleast_1d(dec).astype('f8').ravel()
 
         if ra.size != dec.size:
             raise ValueError(
@@ -818,9 +818,9 @@ class Matcher(htmc.Matcher):
         if file= is sent then then number of matches is returned.
         """
 
-        ra = np.atleast_1d(ra).astype('f8')
-        dec = np.atleast_1d(dec).astype('f8')
-        radius = np.atleast_1d(radius).astype('f8')
+        ra = np.atleast_1d(ra).astype('f8').ravel()
+        dec = np.atleast_1d(dec).astype('f8').ravel()
+        radius = np.atleast_1d(radius).astype('f8').ravel()
 
         if ra.size != dec.size:
             raise ValueError(
